@@ -84,4 +84,14 @@ TEXT = {
         'note': COMMON_NOTE + ' Known finding C08-F1 (leaves lost when the undone block overwrote an empty root) is reported as KNOWN-FINDING.',
         'technique': 'TLA+ spec with undo stack + TLC BFS, Proof.Undo behaviours replayed (G->R)',
     },
+    'C14': {
+        'text': 'Bounded exhaustive model checking of the stateless proof operations (spec/ProofOps.tla): for every abstract '
+                'state within the bound and all argument combinations, the results of AddProof, GetProofSubset (incl. its '
+                'error case), GetMissingPositions and MapPollard.GetMissingPositions + VerifyPartialProof are compared with '
+                'canonical proofs / position sets derived from the reference semantics; TLC proves UnionSufficient and '
+                'MissingExact on the specification.',
+        'design_ref': 'DESIGN.md section 5 (C14)',
+        'note': COMMON_NOTE,
+        'technique': 'TLA+ spec + TLC enumeration of all (state, arguments), results compared on the code (G->R); spec-level theorems',
+    },
 }
